@@ -23,28 +23,40 @@ type RunFn = fn(&'static Ctx) -> (&'static str, Value, Vec<&'static str>);
 type ReplayFn = fn(&'static Ctx, &Value);
 
 fn table() -> Vec<(&'static str, RunFn, ReplayFn)> {
-    vec![
-        ("C20", props::c20::run as RunFn, props::c20::replay as ReplayFn),
-        ("C18", props::c18::run as RunFn, props::c18::replay as ReplayFn),
-        ("C17", props::c17::run as RunFn, props::c17::replay as ReplayFn),
-        ("C15", props::c15::run as RunFn, props::c15::replay as ReplayFn),
-        ("C19", props::c19::run as RunFn, props::c19::replay as ReplayFn),
-        ("C14", props::c14::run as RunFn, props::c14::replay as ReplayFn),
-        ("C06", props::c06::run as RunFn, props::c06::replay as ReplayFn),
-        ("C04", props::c04::run as RunFn, props::c04::replay as ReplayFn),
-        ("C05", props::c05::run as RunFn, props::c05::replay as ReplayFn),
-        ("C01", props::c01::run as RunFn, props::c01::replay as ReplayFn),
-        ("C03", props::c03::run as RunFn, props::c03::replay as ReplayFn),
-        ("C07", props::c07::run as RunFn, props::c07::replay as ReplayFn),
-        ("C02", props::c02::run as RunFn, props::c02::replay as ReplayFn),
-        ("C13", props::c13::run as RunFn, props::c13::replay as ReplayFn),
-        ("C12", props::c12::run as RunFn, props::c12::replay as ReplayFn),
-        ("C11", props::c11::run as RunFn, props::c11::replay as ReplayFn),
-        ("C10", props::c10::run as RunFn, props::c10::replay as ReplayFn),
-        ("C09", props::c09::run as RunFn, props::c09::replay as ReplayFn),
-        ("C16", props::c16::run as RunFn, props::c16::replay as ReplayFn),
-        ("C08", props::c08::run as RunFn, props::c08::replay as ReplayFn),
-    ]
+    let mut t: Vec<(&'static str, RunFn, ReplayFn)> = Vec::new();
+    #[cfg(feature = "full")]
+    t.push(("C20", props::c20::run as RunFn, props::c20::replay as ReplayFn));
+    #[cfg(feature = "full")]
+    t.push(("C18", props::c18::run as RunFn, props::c18::replay as ReplayFn));
+    #[cfg(any(feature = "full", feature = "v-aws"))]
+    t.push(("C17", props::c17::run as RunFn, props::c17::replay as ReplayFn));
+    #[cfg(any(feature = "full", feature = "v-aws"))]
+    t.push(("C15", props::c15::run as RunFn, props::c15::replay as ReplayFn));
+    #[cfg(feature = "full")]
+    t.push(("C19", props::c19::run as RunFn, props::c19::replay as ReplayFn));
+    #[cfg(any(feature = "full", feature = "v-aws"))]
+    t.push(("C14", props::c14::run as RunFn, props::c14::replay as ReplayFn));
+    t.push(("C06", props::c06::run as RunFn, props::c06::replay as ReplayFn));
+    #[cfg(feature = "full")]
+    t.push(("C04", props::c04::run as RunFn, props::c04::replay as ReplayFn));
+    #[cfg(feature = "full")]
+    t.push(("C05", props::c05::run as RunFn, props::c05::replay as ReplayFn));
+    #[cfg(feature = "full")]
+    t.push(("C01", props::c01::run as RunFn, props::c01::replay as ReplayFn));
+    t.push(("C03", props::c03::run as RunFn, props::c03::replay as ReplayFn));
+    #[cfg(feature = "full")]
+    t.push(("C07", props::c07::run as RunFn, props::c07::replay as ReplayFn));
+    t.push(("C02", props::c02::run as RunFn, props::c02::replay as ReplayFn));
+    t.push(("C13", props::c13::run as RunFn, props::c13::replay as ReplayFn));
+    t.push(("C12", props::c12::run as RunFn, props::c12::replay as ReplayFn));
+    t.push(("C11", props::c11::run as RunFn, props::c11::replay as ReplayFn));
+    t.push(("C10", props::c10::run as RunFn, props::c10::replay as ReplayFn));
+    #[cfg(feature = "full")]
+    t.push(("C09", props::c09::run as RunFn, props::c09::replay as ReplayFn));
+    #[cfg(any(feature = "full", feature = "v-aws"))]
+    t.push(("C16", props::c16::run as RunFn, props::c16::replay as ReplayFn));
+    t.push(("C08", props::c08::run as RunFn, props::c08::replay as ReplayFn));
+    t
 }
 
 fn main() {
@@ -67,6 +79,13 @@ fn main() {
         let path = args.get(3).unwrap_or_else(|| machinery("missing replay path"));
         let text = std::fs::read_to_string(path).unwrap_or_else(|e| machinery(&format!("cannot read {path}: {e}")));
         let v: Value = serde_json::from_str(&text).unwrap_or_else(|e| machinery(&format!("bad replay json: {e}")));
+        // a case found in another build configuration is replayed by that configuration's binary
+        if let (Some(cfg), None) = (v["case"]["build_config"].as_str(), variant_name()) {
+            let Some((name, bin, _, what)) = VARIANTS.iter().find(|x| x.0 == cfg) else { machinery("replay: unknown build configuration") };
+            println!("replaying in build configuration {name}: {what}");
+            let st = std::process::Command::new(bin).args(&args[1..]).env("VERIF_VARIANT", name).status().unwrap_or_else(|e| machinery(&format!("cannot run {bin}: {e}")));
+            std::process::exit(st.code().unwrap_or(3));
+        }
         let ctx: &'static Ctx = Box::leak(Box::new(Ctx::new(prop, Tier::Quick, true)));
         set_logging(true);
         replay(ctx, &v["case"]);
@@ -81,6 +100,7 @@ fn main() {
         let n: usize = args.get(5).and_then(|x| x.parse().ok()).unwrap_or(1);
         let ctx: &'static Ctx = Box::leak(Box::new(Ctx::new(prop, tier, true)));
         match prop {
+            #[cfg(feature = "full")]
             "C18" => props::c18::worker(ctx, i, n),
             _ => machinery("no worker mode for this property"),
         }
@@ -92,6 +112,8 @@ fn main() {
         _ => machinery("tier must be quick or thorough"),
     };
     let ctx: &'static Ctx = Box::leak(Box::new(Ctx::new(prop, tier, false)));
+    // the other build configurations run concurrently with this one
+    let variants = spawn_variants(prop, tier);
     // pass 1 with every log macro live (arguments of trace!/debug! are evaluated only when a logger
     // is installed at that level), pass 2 in the library's default state (no logging). Failures of
     // both passes accumulate in the context; the evidence describes the second pass and records
@@ -123,6 +145,7 @@ fn main() {
                 eprintln!("MACHINERY: the S3 simulator's handler panicked; results are not trustworthy");
                 std::process::exit(3);
             }
+            collect_variants(ctx, variants);
             ctx.finish(level, coverage, assumptions)
         }
         Err(_) => {
